@@ -1,4 +1,5 @@
 import Csverif.Driver.Path
+import Csverif.Driver.Storage
 /- Driver: `driver <layer>` reads one operation per line on stdin and prints one canonical
    line per operation.  It executes the very definitions the theorems are about. -/
 open CS
@@ -9,9 +10,19 @@ partial def loopStateless (h : IO.FS.Stream) (out : IO.FS.Stream) (f : List Stri
   out.putStrLn (f (Wire.tokens line))
   loopStateless h out f
 
+partial def loopState {σ : Type} (h : IO.FS.Stream) (out : IO.FS.Stream) (s : σ)
+    (f : σ → List String → σ × String) : IO Unit := do
+  let line ← h.getLine
+  if line.isEmpty then return ()
+  let (s', o) := f s (Wire.tokens line)
+  out.putStrLn o
+  loopState h out s' f
+
 def main (args : List String) : IO UInt32 := do
   let stdin ← IO.getStdin
   let stdout ← IO.getStdout
   match args with
   | ["path"] => loopStateless stdin stdout Driver.Path.step; stdout.flush; return 0
+  | ["sqlite"] => loopState stdin stdout ([] : Storage.Sqlite.Table String) Driver.Storage.stepSqliteR; stdout.flush; return 0
+  | ["mockstorage"] => loopState stdin stdout ({ rows := [], cursor := 0 } : Storage.Mock.St String) Driver.Storage.stepMock; stdout.flush; return 0
   | _ => IO.eprintln "usage: driver <layer>"; return 2
